@@ -43,10 +43,10 @@ def _detect_ssc(
 ) -> Tuple[Union[TextIO, Iterator[str]], bool]:
     if isinstance(file, TextIOWrapper) or isinstance(file, TextIO):
         if type(file.name) is str:
-            _, _, suffix = file.name.lower().rpartition(".")
-            if suffix == "ssc":
+            lower_name = file.name.lower()
+            if lower_name.endswith(".ssc"):
                 return (file, True)
-            elif suffix == "sm":
+            elif lower_name.endswith(".sm"):
                 return (file, False)
         parser = parse_msd(file=file, ignore_stray_text=not strict)
     else:
